@@ -1128,3 +1128,117 @@ pub fn swap_array_starts(tick_current: i32, spacing: u16, a_to_b: bool) -> Vec<i
     let min_start = floor_div(crate::model::MIN_TICK, n) * n;
     offs.iter().map(|o| base + o * n).filter(|s| *s >= min_start && *s <= crate::model::MAX_TICK).collect()
 }
+
+#[derive(Clone, Debug, PartialEq, Eq, serde::Serialize, serde::Deserialize, Hash)]
+pub struct TwoHopParams {
+    pub amount: u64,
+    pub threshold: u64,
+    pub exact_in: bool,
+    pub a_to_b_one: bool,
+    pub a_to_b_two: bool,
+    #[serde(with = "crate::ser::u128s")]
+    pub limit_one: u128,
+    #[serde(with = "crate::ser::u128s")]
+    pub limit_two: u128,
+}
+
+impl World {
+    pub fn mint_of(&self, pool: usize, a: bool) -> MintInfo {
+        if a {
+            self.pools[pool].mint_a.clone()
+        } else {
+            self.pools[pool].mint_b.clone()
+        }
+    }
+
+    /// two-hop swap `p1` then `p2` (v1: both pools over SPL Token)
+    pub fn ix_two_hop(&self, p1: usize, p2: usize, user: usize, p: &TwoHopParams, v2: bool) -> Instruction {
+        let (one, two) = (&self.pools[p1], &self.pools[p2]);
+        let t1 = self.swap_arrays(p1, p.a_to_b_one);
+        let t2 = self.swap_arrays(p2, p.a_to_b_two);
+        let tok = |m: &Pubkey| self.users[user].tokens.iter().find(|(k, _)| k == m).map(|(_, t)| *t).unwrap_or_default();
+        let mut ix = if !v2 {
+            ixb(
+                wa::TwoHopSwap {
+                    token_program: TOKEN,
+                    token_authority: self.users[user].key,
+                    whirlpool_one: one.key,
+                    whirlpool_two: two.key,
+                    token_owner_account_one_a: tok(&one.mint_a.key),
+                    token_vault_one_a: one.vault_a,
+                    token_owner_account_one_b: tok(&one.mint_b.key),
+                    token_vault_one_b: one.vault_b,
+                    token_owner_account_two_a: tok(&two.mint_a.key),
+                    token_vault_two_a: two.vault_a,
+                    token_owner_account_two_b: tok(&two.mint_b.key),
+                    token_vault_two_b: two.vault_b,
+                    tick_array_one_0: t1[0],
+                    tick_array_one_1: t1[1],
+                    tick_array_one_2: t1[2],
+                    tick_array_two_0: t2[0],
+                    tick_array_two_1: t2[1],
+                    tick_array_two_2: t2[2],
+                    oracle_one: one.oracle,
+                    oracle_two: two.oracle,
+                },
+                wi::TwoHopSwap {
+                    amount: p.amount,
+                    other_amount_threshold: p.threshold,
+                    amount_specified_is_input: p.exact_in,
+                    a_to_b_one: p.a_to_b_one,
+                    a_to_b_two: p.a_to_b_two,
+                    sqrt_price_limit_one: p.limit_one,
+                    sqrt_price_limit_two: p.limit_two,
+                },
+            )
+        } else {
+            let (m_in, v_one_in, v_one_mid, m_mid) = if p.a_to_b_one { (&one.mint_a, one.vault_a, one.vault_b, &one.mint_b) } else { (&one.mint_b, one.vault_b, one.vault_a, &one.mint_a) };
+            let (v_two_mid, v_two_out, m_out) = if p.a_to_b_two { (two.vault_a, two.vault_b, &two.mint_b) } else { (two.vault_b, two.vault_a, &two.mint_a) };
+            ixb(
+                wa::TwoHopSwapV2 {
+                    whirlpool_one: one.key,
+                    whirlpool_two: two.key,
+                    token_mint_input: m_in.key,
+                    token_mint_intermediate: m_mid.key,
+                    token_mint_output: m_out.key,
+                    token_program_input: m_in.program,
+                    token_program_intermediate: m_mid.program,
+                    token_program_output: m_out.program,
+                    token_owner_account_input: tok(&m_in.key),
+                    token_vault_one_input: v_one_in,
+                    token_vault_one_intermediate: v_one_mid,
+                    token_vault_two_intermediate: v_two_mid,
+                    token_vault_two_output: v_two_out,
+                    token_owner_account_output: tok(&m_out.key),
+                    token_authority: self.users[user].key,
+                    tick_array_one_0: t1[0],
+                    tick_array_one_1: t1[1],
+                    tick_array_one_2: t1[2],
+                    tick_array_two_0: t2[0],
+                    tick_array_two_1: t2[1],
+                    tick_array_two_2: t2[2],
+                    oracle_one: one.oracle,
+                    oracle_two: two.oracle,
+                    memo_program: MEMO,
+                },
+                wi::TwoHopSwapV2 {
+                    amount: p.amount,
+                    other_amount_threshold: p.threshold,
+                    amount_specified_is_input: p.exact_in,
+                    a_to_b_one: p.a_to_b_one,
+                    a_to_b_two: p.a_to_b_two,
+                    sqrt_price_limit_one: p.limit_one,
+                    sqrt_price_limit_two: p.limit_two,
+                    remaining_accounts_info: None,
+                },
+            )
+        };
+        // adaptive-fee pools need their oracle writable
+        for m in ix.accounts.iter_mut() {
+            if (m.pubkey == one.oracle && one.adaptive) || (m.pubkey == two.oracle && two.adaptive) {
+                m.is_writable = true;
+            }
+        }
+        ix
+    }
+}
